@@ -256,7 +256,9 @@ func runCheck(prop, tier string, seed int) int {
 				var keep []*Obligation
 				for _, o := range u.Obls {
 					if lu != nil {
-						if lo := lu.Obligations[o.Name]; lo != nil && lo.Tier == "thorough" {
+						// only slow vacuity probes (cover obligations) are left to the thorough tier: every proof obligation
+						// runs on every change, however long it took when the ledger was written (that time depends on the load)
+						if lo := lu.Obligations[o.Name]; lo != nil && lo.Tier == "thorough" && lo.Kind == "cover" {
 							continue
 						}
 					}
@@ -394,7 +396,7 @@ func runCheck(prop, tier string, seed int) int {
 				if gen[name] || lo.Status != "discharged" {
 					continue
 				}
-				if tier == "quick" && lo.Tier == "thorough" {
+				if tier == "quick" && lo.Tier == "thorough" && lo.Kind == "cover" {
 					continue
 				}
 				switch lo.Kind {
